@@ -40,6 +40,9 @@ EXPLANATION += ' R1 evaluates set_four_index_element on an array with earlier co
 # --- metadata added for batch 8
 EXPLANATION += ' R1 also on a Fortran-ordered array and a transposed view (a write through a flat copy is lost); R5 also with an overlap matrix of integer dtype (eigenvectors filled into an array created like it are truncated).'
 # --- end metadata batch 8
+# --- metadata added for batch 9
+EXPLANATION += ' R2 is decided by evaluation alone when the vocabulary is not a constant table (seventeen foreign strings, among them words that only begin with a vocabulary word). R3 also: nearly and exactly dependent pairs of vectors (accuracy 1e-6, no nan).'
+# --- end metadata batch 9
 TRUSTED = ["CPython ast parser", "scipy.linalg.eigh(a, b) solves a v = w b v and returns (w, v)", "np.linalg.norm and abs are non-negative"]
 
 DOC_TRUE = {"y", "yes", "t", "true", "on", "1"}
